@@ -394,3 +394,68 @@ svd_col!(c01_svd_3x1, 3, 6);
 // NOTE: the SVD of a DIAGONAL 3x3 lattice matrix (nothing to reduce, only sign fixing and the ordering pass over symbolic
 // values) was tried with unwind 32 (the code's 30-sweep cap): not finished in 25 min.  Ordering of singular values for more than
 // one column therefore stays outside the claim; the seeded changes C01-2 and C07-1 (both in the shell sort of svd_mut) are missed.
+
+// SVD solve on a single column: least-squares solution x = (a.b)/(a.a); a zero column (rank deficient) gives the minimum-norm solution 0
+// @vp name=c01_svd_solve_2x1 prop=C01 tier=quick t=480 fns=svd_mut,SVD::solve,svd_solve_mut size=2x1,rhs-2x1 dom=lattice(-4..4),nonzero-column,f32 stubs=traps,no_format,hyp32
+dec_proof! {
+    #[cfg_attr(kani, kani::unwind(5))]
+    fn c01_svd_solve_2x1() {
+        let (ai, a) = latmat32::<2>(-4, 4);
+        let (bi, b) = latmat32::<2>(-4, 4);
+        let n2 = ai[0] * ai[0] + ai[1] * ai[1];
+        kani::assume(n2 != 0);
+        let m = DenseMatrix::from_array(2, 1, &a);
+        let x = match m.svd_solve_mut(DenseMatrix::from_array(2, 1, &b)) {
+            Ok(x) => x,
+            Err(_) => vp_fail!("C01:svd-solve-failed"),
+        };
+        let ab = (ai[0] * bi[0] + ai[1] * bi[1]) as f32;
+        vp_assert!((x.get(0, 0) * n2 as f32 - ab).abs() <= 1e-3, "C01:svd-least-squares-solution");
+        vp_reached!();
+    }
+}
+// @vp name=c01_svd_solve_zero_column prop=C01 tier=quick t=480 fns=svd_mut,SVD::solve,svd_solve_mut size=2x1-zero,rhs-2x1 dom=rhs-lattice(-4..4),f32 stubs=traps,no_format,hyp32
+dec_proof! {
+    #[cfg_attr(kani, kani::unwind(5))]
+    fn c01_svd_solve_zero_column() {
+        let (_bi, b) = latmat32::<2>(-4, 4);
+        let m = DenseMatrix::from_array(2, 1, &[0.0f32, 0.0]);
+        let x = match m.svd_solve_mut(DenseMatrix::from_array(2, 1, &b)) {
+            Ok(x) => x,
+            Err(_) => vp_fail!("C01:svd-solve-failed"),
+        };
+        vp_assert!(x.get(0, 0) == 0.0, "C01:svd-rank-deficient-minimum-norm-solution");
+        vp_reached!();
+    }
+}
+
+// @vp name=c01_cholesky_factor_3x3 prop=C01 tier=thorough t=3000 fns=cholesky_mut,Cholesky::L size=3x3 dom=A=L0*L0^T,L0-lattice(-2..2),diag1..3,f32 stubs=traps,no_format
+dec_proof! {
+    #[cfg_attr(kani, kani::unwind(6))]
+    fn c01_cholesky_factor_3x3() {
+        let l = [lat(1, 3), lat(-2, 2), lat(1, 3), lat(-2, 2), lat(-2, 2), lat(1, 3)]; // l11, l21, l22, l31, l32, l33
+        let l0 = [[l[0], 0, 0], [l[1], l[2], 0], [l[3], l[4], l[5]]];
+        let mut a = [0f32; 9];
+        for i in 0..3 {
+            for j in 0..3 {
+                let mut s = 0i32;
+                for k in 0..3 {
+                    s += l0[i][k] * l0[j][k];
+                }
+                a[i * 3 + j] = s as f32;
+            }
+        }
+        let m = DenseMatrix::from_array(3, 3, &a);
+        let c = match m.cholesky() {
+            Ok(c) => c,
+            Err(_) => vp_fail!("C01:cholesky-failed-on-spd"),
+        };
+        let lf = c.L();
+        for i in 0..3 {
+            for j in 0..3 {
+                vp_assert!((lf.get(i, j) - l0[i][j] as f32).abs() <= 1e-3, "C01:cholesky-factor");
+            }
+        }
+        vp_reached!();
+    }
+}
